@@ -49,6 +49,9 @@ class ModInfo:
                 parts = parts[:len(parts) - (st.level - 1)]
                 mod = '.'.join(parts + ([st.module] if st.module else []))
             for a in st.names:
+                if a.name == '*':
+                    self.star = getattr(self, 'star', []) + [mod]
+                    continue
                 self.top[a.asname or a.name] = ('from', mod, a.name)
         elif isinstance(st, (ast.If, ast.Try)):
             # module-level conditionals: index both arms (first definition wins is irrelevant here)
